@@ -37,10 +37,10 @@ Qed.
 
 Theorem enum_domain_complete tbl strict pod (D : value -> bool) z v :
   nodupN (map fst tbl) = true -> D (VInt z) = true ->
-  adec (AEnum tbl strict) pod (VInt z) = Some v ->
-  adomb (AEnum tbl strict) pod D v = true.
+  adec_s (AEnum tbl strict) pod (VInt z) = Some v ->
+  adomb_s (AEnum tbl strict) pod D v = true.
 Proof.
-  intros Hnd HD. cbn [adec adomb]. destruct (find_value z tbl) as [n|] eqn:Ef.
+  intros Hnd HD. cbn [adec_s adomb_s]. destruct (find_value z tbl) as [n|] eqn:Ef.
   - destruct pod; intros H; injection H as <-.
     + rewrite (lookup_in_nodup _ _ _ Hnd (find_value_in _ _ _ Ef)), HD, Ef, N.eqb_refl. reflexivity.
     + rewrite HD, Ef. reflexivity.
@@ -115,8 +115,8 @@ Qed.
 (* encode (flags_to_pod z) = z, and flags_to_pod z is in the pod domain *)
 Theorem flag_domain_complete tbl (D : value -> bool) z :
   flags_ok tbl = true -> D (VInt z) = true ->
-  aenc (AFlag tbl) (VList (flags_to_pod tbl z)) = Some (VInt z) /\
-  adomb (AFlag tbl) true D (VList (flags_to_pod tbl z)) = true.
+  aenc_s (AFlag tbl) (VList (flags_to_pod tbl z)) = Some (VInt z) /\
+  adomb_s (AFlag tbl) true D (VList (flags_to_pod tbl z)) = true.
 Proof.
   intros Hok HD. unfold flags_ok in Hok. apply andb_prop in Hok as [Hnd Hbits].
   assert (Hor : flag_or tbl (flags_to_pod tbl z) = Some z).
@@ -135,8 +135,8 @@ Proof.
     rewrite (flag_or_app _ _ _ _ _ Hn Hl). f_equal. subst lo.
     rewrite <- Z.land_lor_distr_r, Z.lor_lnot_diag. apply Z.land_m1_r. }
   split.
-  - cbn [aenc]. now rewrite Hor.
-  - cbn [adomb andb]. rewrite Hor, HD. cbn [andb].
+  - cbn [aenc_s]. now rewrite Hor.
+  - cbn [adomb_s andb]. rewrite Hor, HD. cbn [andb].
     unfold flags_to_pod. apply items_eqb_refl_names.
     destruct (Z.eqb (Z.land z (Z.lnot (flags_all tbl))) 0); [reflexivity|].
     cbn. now rewrite Z.eqb_refl.
